@@ -158,9 +158,10 @@ pub fn curated() -> Vec<(&'static str, Spec, bool)> {
     }
     // a look-ahead pattern next to one that continues on every byte the assertion refuses (the state
     // after the prefix has an edge for all 256 bytes, but not all of them lead to an accept)
-    add("la_refused_cont", true, vec![r(r"r(?-u:\b)"), r("r[0-9A-Za-z_]!"), r("[a-z?]").prio(1)]);
-    add("la_refused_cont2", true, vec![r("if(?m:$)"), r("if[^\\n]x"), r("[a-z ]").prio(1), t("\n")]);
-    add("la_refused_cont3", false, vec![r(r"k(?-u:\B)"), r("k[^0-9A-Za-z_];"), Pat::bregex(b"[\\x00-\\xff]").prio(1)]);
+    add("la_refused_cont", true, vec![r(r"r(?-u:\b)"), r("r[0-9A-Za-z_]!")]);
+    add("la_refused_cont1", true, vec![r(r"r(?-u:\b)"), r("r[0-9A-Za-z_]!"), r("[a-qs-z?]").prio(1)]);
+    add("la_refused_cont2", true, vec![r("if(?m:$)"), r("if[^\\n]x"), t("\n")]);
+    add("la_refused_cont3", false, vec![r(r"k(?-u:\B)"), r("k[^0-9A-Za-z_];")]);
     // alternations with an empty / optional-only branch (also the ones regex-syntax creates by
     // factoring out a common prefix) next to a literal token matched through that branch
     add("alt_empty_branch", true, vec![r("(_*|r#)[a-z]+"), t("if")]);
